@@ -391,7 +391,7 @@ public:
 	}
 	
 	void SyncUDEC3(Vector3& vec) {
-		uint32_t data;
+		uint32_t data = 0;
 
 		if (mode == Mode::Writing) {
 			data =  (((uint32_t)((vec.z+1.0)*511.5)) & 1023) << 20;
